@@ -1,11 +1,84 @@
-/- Oracle operations, group Taproot (see /verif/CONVENTIONS.md). -/
+/- Oracle operations, group Taproot (C13): the model of /repo/taproot and of the MAST / P2TR part of
+   /repo/script, run with `Prim` (SHA-256, secp256k1) as the independent implementation. -/
 import BtcVerif.Oracle.Util
+import BtcVerif.Model.Taproot
+import BtcVerif.Prim.SHA256
 
 namespace BtcVerif.Oracle
-open BtcVerif
+open BtcVerif BtcVerif.Model BtcVerif.Model.Bip32 BtcVerif.Model.Taproot
+
+/-- hex digits up to the next `,` `)` or the end -/
+def takeHexTok (cs : List Char) : List Char × List Char := cs.span fun c => c != ',' && c != ')'
+
+def parseHexTok (cs : List Char) : Option Bytes :=
+  if cs == ['-'] then some [] else parseHexChars cs
+
+/-- compact tree syntax: `N` (nil) | `L<2 hex digits version>:<script hex or ->` |
+    `H:<hash hex>` | `B(<tree>,<tree>)` -/
+def parseTree : Nat → List Char → Option (Tree × List Char)
+  | 0, _ => none
+  | _ + 1, 'N' :: rest => some (.nil, rest)
+  | _ + 1, 'L' :: a :: b :: ':' :: rest => do
+    let v ← parseHexChars [a, b]
+    let (tok, rest') := takeHexTok rest
+    let s ← parseHexTok tok
+    match v with
+    | [v] => some (.leaf v s, rest')
+    | _ => none
+  | _ + 1, 'H' :: ':' :: rest => do
+    let (tok, rest') := takeHexTok rest
+    let h ← parseHexTok tok
+    some (.hash h, rest')
+  | fuel + 1, 'B' :: '(' :: rest => do
+    let (l, rest1) ← parseTree fuel rest
+    match rest1 with
+    | ',' :: rest2 =>
+      let (r, rest3) ← parseTree fuel rest2
+      match rest3 with
+      | ')' :: rest4 => some (.branch l r, rest4)
+      | _ => none
+    | _ => none
+  | _ + 1, _ => none
+
+def parseTreeStr (s : String) : Option Tree :=
+  match parseTree (s.length + 1) s.toList with
+  | some (t, []) => some t
+  | _ => none
 
 def opTaproot (op : String) (args : List String) : Option String :=
   match op, args with
+  | "tap.tweakpub", [k, h] => do
+    let k ← parseHex k
+    let h ← parseHex h
+    some (outcomeStr (fun r => s!"{hexOf r.1} {if r.2 then 1 else 0}") (tweakPub secp Prim.sha256 k h))
+  | "tap.tweakpriv", [k, h] => do
+    let k ← parseHex k
+    let h ← parseHex h
+    some (outcomeStr hexOf (tweakPriv secp Prim.sha256 k h))
+  | "tap.leaf", [v, s] => do
+    let v ← parseHex v
+    let s ← parseHex s
+    match v with
+    | [v] => some s!"ok {hexOf (leafHash Prim.sha256 v s)}"
+    | _ => none
+  | "tap.branch", [a, b] => do
+    let a ← parseHex a
+    let b ← parseHex b
+    some s!"ok {hexOf (branchHash Prim.sha256 a b)}"
+  | "tap.tree", [t] => do
+    let t ← parseTreeStr t
+    some (outcomeStr hexOf (treeHash Prim.sha256 t))
+  | "tap.p2tr", [k, t] => do
+    let k ← parseHex k
+    let t ← parseTreeStr t
+    some (outcomeStr hexOf (makeP2TR secp Prim.sha256 k t))
+  | "dead.build", [r] => do
+    let r ← parseHex r
+    some (outcomeStr hexOf (buildDead secp deadH r))
+  | "dead.verify", [k, r] => do
+    let k ← parseHex k
+    let r ← parseHex r
+    some (outcomeStr (fun _ => "valid") (verifyDead secp deadH k r))
   | _, _ => none
 
 end BtcVerif.Oracle
